@@ -1,7 +1,7 @@
 SPECIFICATION Spec
 CONSTANTS
   NameHash <- HashB
-  Headers <- HeadersB
+  Headers <- HeadersBq
   Values = {1, 2}
   SensNames = {1}
   Sizes = {0, 300}
@@ -13,5 +13,5 @@ INVARIANT IndexInv
 INVARIANT LookupInv
 CONSTRAINT HistBound
 ACTION_CONSTRAINT EdgeOK
-ACTION_CONSTRAINT ExportB
+ACTION_CONSTRAINT ExportBq
 CHECK_DEADLOCK FALSE
